@@ -173,7 +173,8 @@ def spy_forecaster_class(kind="naive"):
     def predict(self, fh=None, X=None, return_pred_int=False, alpha=0.05):
         out = Base.predict(self, fh, X if kind == "naive" else None, return_pred_int=return_pred_int, alpha=alpha)
         LOGS[self.log_id].append({"op": "predict", "name": self.name, "obj": _uid(self), "cutoff": int(self.cutoff),
-                                  "index": [int(v) for v in out.index], "values": np.asarray(out, dtype=float).copy()})
+                                  "index": [int(v) for v in out.index], "values": np.asarray(out, dtype=float).copy(),
+                                  "X_index": None if X is None else [int(v) for v in X.index]})
         return out
 
     cls.fit = fit
